@@ -501,8 +501,19 @@ impl<const D: bool> SimShim<D> {
         results: QueryResultWriter<'_, SimStream>,
     ) -> Result<(), ShimErr> {
         let convert = self.w.borrow().convert_params;
+        let pull = self.w.borrow().peek_pull();
         let mut seen = Vec::new();
-        for p in params {
+        // a shim may look at only some of its parameters (or none: an execution refused up
+        // front); what it did not pull must not change what later executions see
+        let it: Box<dyn Iterator<Item = msql_srv::ParamValue<'_>>> = match pull {
+            Some(0) => {
+                drop(params);
+                Box::new(std::iter::empty())
+            }
+            Some(k) => Box::new(params.into_iter().take(k as usize)),
+            None => Box::new(params.into_iter()),
+        };
+        for p in it {
             let coltype = p.coltype as u8;
             let val: SeenVal = seen_val_from_inner(p.value.into_inner());
             let conv = if convert {
